@@ -9,7 +9,7 @@
    tools' chunks.  [answer c] is what the tool named by call [c] returns on [c]'s arguments
    (through the handler for an unknown name; [Err] if the name does not resolve). *)
 From Coq Require Import Permutation.
-From Eino Require Import Base.Util Model.Tools Proofs.Tools.
+From Eino Require Import Base.Util Model.Concat Model.ConcatMsg Model.Tools Model.ToolsMsg Proofs.Tools Proofs.ToolsMore Proofs.ToolsConcat.
 Local Open Scope string_scope.
 
 (* N calls => exactly N messages, the i-th = (output of the i-th call's tool on its arguments,
@@ -140,6 +140,204 @@ Theorem tools_derived_consistent :
 Proof. exact derived_consistent. Qed.
 Print Assumptions tools_derived_consistent.
 
+(* non-vacuity of "every complete interleaving", for all inputs: a complete interleaving always
+   exists when no tool stream carries an error item — tool 0's stream to its end, then tool
+   1's, ... (the schedule the correspondence check uses for the graph-concatenated run) *)
+Theorem tools_complete_schedule_exists :
+  forall srcs, tails_none srcs -> drained (merge_rest (seq_sched srcs) srcs) = true.
+Proof. exact seq_sched_complete. Qed.
+Print Assumptions tools_complete_schedule_exists.
+
+(* ---- failures of the streamed form ------------------------------------------------------ *)
+
+(* a call that fails when its tool is called makes Stream fail with that tool's error, for every
+   completion order (the earlier calls having opened their streams); panics as in tools_fail *)
+Theorem tools_stream_fail :
+  forall kind_of inv str handler pi calls pre c post r,
+    Permutation pi (seq 0 (List.length calls)) ->
+    calls = (pre ++ c :: post)%list ->
+    (forall c', In c' calls -> exists r', s_answer kind_of inv str handler c' = Ok r') ->
+    Forall (fun c => exists cs tl, s_answer kind_of inv str handler c = Ok (SOk cs tl)) pre ->
+    s_answer kind_of inv str handler c = Ok r ->
+    (forall cs tl, r <> SOk cs tl) ->
+    tools_stream_open kind_of inv str handler pi true calls =
+    match r with
+    | SErr e => Err e
+    | _ => match pre with [] => Panic | _ => Err E_PANIC end
+    end.
+Proof. exact stream_first_failure. Qed.
+Print Assumptions tools_stream_fail.
+
+(* no call fails when called: Stream opens one stream per call, in call order, tagged with the
+   call's id, carrying exactly that tool's chunks and error item — for every completion order *)
+Theorem tools_stream_open_spec :
+  forall kind_of inv str handler pi calls sts,
+    calls <> [] ->
+    Permutation pi (seq 0 (List.length calls)) ->
+    Forall2 (fun c s => s_answer kind_of inv str handler c = Ok (SOk (fst s) (snd s))) calls sts ->
+    tools_stream_open kind_of inv str handler pi true calls = Ok (opened calls sts)
+    /\ stream_srcs (opened calls sts) = sts
+    /\ stream_ids (opened calls sts) = map c_id calls.
+Proof. exact stream_open_spec. Qed.
+Print Assumptions tools_stream_open_spec.
+
+(* the merged stream, for every interleaving [sched] (complete or not) of arbitrary tool
+   streams: what has been delivered for position j is an in-order prefix of tool j's chunks *)
+Theorem tools_stream_prefix :
+  forall sched srcs j, list_prefix (proj j (fst (merge_run sched srcs))) (chunks_at j srcs).
+Proof. exact merge_prefix. Qed.
+Print Assumptions tools_stream_prefix.
+
+(* a tool that fails in the middle of its stream: if the merged stream ends with an error it is
+   the error item of some tool, delivered after all of that tool's chunks ... *)
+Theorem tools_stream_error_item :
+  forall sched srcs e,
+    snd (merge_run sched srcs) = Some e ->
+    exists i cs, nth_error srcs i = Some (cs, Some e) /\ proj i (fst (merge_run sched srcs)) = cs.
+Proof. exact merge_error_item. Qed.
+Print Assumptions tools_stream_error_item.
+
+(* ... and the merged stream can never reach its normal end (a reader sees the failure) *)
+Theorem tools_stream_no_eof_after_error :
+  forall sched srcs i cs e,
+    nth_error srcs i = Some (cs, Some e) -> drained (merge_rest sched srcs) = false.
+Proof. exact merge_no_eof_with_error_item. Qed.
+Print Assumptions tools_stream_no_eof_after_error.
+
+(* ---- rejection, exactly-once ----------------------------------------------------------- *)
+Theorem tools_reject_role :
+  forall kind_of inv str handler pi calls,
+    tools_invoke kind_of inv str handler pi false calls = Err E_ROLE
+    /\ tools_stream_open kind_of inv str handler pi false calls = Err E_ROLE
+    /\ tools_executed kind_of handler false calls = [].
+Proof. exact reject_role. Qed.
+Print Assumptions tools_reject_role.
+
+Theorem tools_reject_nocall :
+  forall kind_of inv str handler pi role_ok,
+    (exists e, tools_invoke kind_of inv str handler pi role_ok [] = Err e)
+    /\ (exists e, tools_stream_open kind_of inv str handler pi role_ok [] = Err e)
+    /\ tools_executed kind_of handler role_ok [] = [].
+Proof. exact reject_nocall. Qed.
+Print Assumptions tools_reject_nocall.
+
+(* every call is executed exactly once (whatever fails later) as soon as every name resolves *)
+Theorem tools_executed_once :
+  forall kind_of handler calls,
+    calls <> [] ->
+    (forall c, In c calls -> kind_of (c_name c) <> None \/ handler <> None) ->
+    tools_executed kind_of handler true calls = calls.
+Proof. exact executed_once. Qed.
+Print Assumptions tools_executed_once.
+
+(* ---- call options ---------------------------------------------------------------------- *)
+(* the answer under call options: the tool set in force (the call's own list if one is given,
+   otherwise the configured one) evaluated on this call's tool-option values *)
+Theorem tools_invoke_with_spec :
+  forall (O : Type) (cfg : toolset O) handler o pi calls outs,
+    calls <> [] ->
+    Permutation pi (seq 0 (List.length calls)) ->
+    Forall2 (fun c out => answer_with O cfg handler o c = Ok (TOk out)) calls outs ->
+    tools_invoke_with cfg handler o pi true calls = Ok (combine outs (map c_id calls)).
+Proof. exact invoke_with_spec. Qed.
+Print Assumptions tools_invoke_with_spec.
+
+Theorem tools_call_list_replaces :
+  forall (O : Type) (cfg : toolset O) handler (cfg' : toolset O) ts x pi role_ok calls,
+    tools_invoke_with cfg handler (mkCO (Some ts) x) pi role_ok calls
+    = tools_invoke_with cfg' handler (mkCO (Some ts) x) pi role_ok calls
+    /\ tools_stream_open_with cfg handler (mkCO (Some ts) x) pi role_ok calls
+       = tools_stream_open_with cfg' handler (mkCO (Some ts) x) pi role_ok calls.
+Proof. exact call_list_replaces. Qed.
+Print Assumptions tools_call_list_replaces.
+
+Theorem tools_call_list_unknown :
+  forall (O : Type) (cfg : toolset O) handler ts x pi calls c,
+    In c calls -> ts_kind ts (c_name c) = None -> handler = None ->
+    tools_invoke_with cfg handler (mkCO (Some ts) x) pi true calls = Err E_UNKNOWN
+    /\ tools_stream_open_with cfg handler (mkCO (Some ts) x) pi true calls = Err E_UNKNOWN
+    /\ tools_executed_with cfg handler (mkCO (Some ts) x) true calls = [].
+Proof. exact call_list_unknown. Qed.
+Print Assumptions tools_call_list_unknown.
+
+(* ---- convTools / NewToolNode (the definitions the correspondence check runs) -------------- *)
+(* [node_invoke handler cfg cl opts] = NewToolNode on the tool list cfg, then Invoke with the
+   call options (WithToolList cl, tool options opts) *)
+Theorem tools_conv_ok_iff :
+  forall (O : Type) (l : list (tooldecl O)),
+    (exists tl, conv_tools l = Ok tl) <-> Forall (takeable O) l.
+Proof. exact conv_tools_ok_iff. Qed.
+Print Assumptions tools_conv_ok_iff.
+
+(* a tool that cannot be taken (its Info fails, or it implements neither run interface), in the
+   configuration or in the call's list: an error, and nothing runs *)
+Theorem tools_node_bad_tool :
+  forall (O : Type) handler (cfg : list (tooldecl O)) cl opts pi role_ok calls,
+    ~ Forall (takeable O) cfg \/ (exists l, cl = Some l /\ ~ Forall (takeable O) l) ->
+    (exists e, node_invoke handler cfg cl opts pi role_ok calls = Err e)
+    /\ (exists e, node_stream_open handler cfg cl opts pi role_ok calls = Err e)
+    /\ node_executed handler cfg cl opts role_ok calls = [].
+Proof. exact node_bad_tool. Qed.
+Print Assumptions tools_node_bad_tool.
+
+(* otherwise the node is the tools node of the converted lists (to which every theorem above
+   applies: tools_invoke_with is tools_invoke on the tool set in force) *)
+Theorem tools_node_good_tools :
+  forall (O : Type) handler (cfg : list (tooldecl O)) cl opts pi role_ok calls,
+    Forall (takeable O) cfg -> (forall l, cl = Some l -> Forall (takeable O) l) ->
+    exists c l,
+      conv_tools cfg = Ok c /\ conv_call_list cl = Ok l
+      /\ node_invoke handler cfg cl opts pi role_ok calls
+         = tools_invoke_with (toolset_of_conv c) handler (mkCO l opts) pi role_ok calls
+      /\ node_stream_open handler cfg cl opts pi role_ok calls
+         = tools_stream_open_with (toolset_of_conv c) handler (mkCO l opts) pi role_ok calls.
+Proof. exact node_good_tools. Qed.
+Print Assumptions tools_node_good_tools.
+
+(* "the tool named by that call": the last tool of that name in the list; none => unknown *)
+Theorem tools_index_last_wins :
+  forall A (l1 l2 : list (string * A)) n a,
+    (forall a', ~ In (n, a') l2) -> index_lookup (l1 ++ (n, a) :: l2) n = Some a.
+Proof. exact index_last_wins. Qed.
+Print Assumptions tools_index_last_wins.
+
+Theorem tools_index_unknown :
+  forall A (l : list (string * A)) n, (forall a, ~ In (n, a) l) -> index_lookup l n = None.
+Proof. exact index_unknown. Qed.
+Print Assumptions tools_index_unknown.
+
+(* ---- the concatenation is the framework's own (property C14's model) --------------------- *)
+(* [U] = the concat functions the application registered (C14's model is generic in them; tool
+   messages never reach one).  [framework_concat ids em] = C14's model of concatStreamReader / concatMessageArray /
+   ConcatMessages applied to the sparse tool-message lists the node emitted; it is concat_pos,
+   message for message, for every chunk sequence *)
+Theorem tools_concat_is_framework_concat :
+  forall (U : UserFn) ids em,
+    framework_concat ids em =
+    match concat_pos ids em with
+    | Ok l => Ok (map (option_map tool_msg) l)
+    | _ => Err Concat.E_EMPTY
+    end.
+Proof. exact @concat_pos_is_msglist_stream. Qed.
+Print Assumptions tools_concat_is_framework_concat.
+
+Theorem tools_stream_concat_framework :
+  forall (U : UserFn) kind_of inv str handler pi pi' calls css,
+    calls <> [] ->
+    Permutation pi (seq 0 (List.length calls)) ->
+    Permutation pi' (seq 0 (List.length calls)) ->
+    Forall2 (fun c cs => s_answer kind_of inv str handler c = Ok (SOk cs None) /\ cs <> []) calls css ->
+    Forall2 (fun c cs => answer kind_of inv str handler c = Ok (TOk (concat_strings cs))) calls css ->
+    exists ss msgs,
+      tools_stream_open kind_of inv str handler pi true calls = Ok ss
+      /\ tools_invoke kind_of inv str handler pi' true calls = Ok msgs
+      /\ forall sched,
+           drained (merge_rest sched (stream_srcs ss)) = true ->
+           framework_concat (stream_ids ss) (fst (merge_run sched (stream_srcs ss)))
+           = Ok (map (fun m => Some (tool_msg m)) msgs).
+Proof. exact @stream_concat_framework. Qed.
+Print Assumptions tools_stream_concat_framework.
+
 (* ---- non-vacuity ----------------------------------------------------------------------- *)
 Definition ex_kind (n : string) : option tkind :=
   if String.eqb n "ta" then Some KInv else if String.eqb n "tb" then Some KStr
@@ -196,3 +394,37 @@ Example zero_chunk_outside_domain :
   tools_invoke ex_kind ex_inv str0 None [0]%nat true [mkCall "c0" "tb" "y"] = Err E_EMPTY
   /\ tools_stream_open ex_kind ex_inv str0 None [0]%nat true [mkCall "c0" "tb" "y"] = Ok [("c0", [], None)].
 Proof. vm_compute. split; reflexivity. Qed.
+
+(* streamed form, failures: call 1 fails when called although call 2 (finishing first) streams *)
+Example stream_fail_nonvacuous :
+  tools_stream_open ex_kind ex_inv ex_str None [2; 0; 1]%nat true
+    [mkCall "c0" "ta" "x"; mkCall "c1" "tb" "boom"; mkCall "c2" "tc" "y"] = Err 101.
+Proof. vm_compute. reflexivity. Qed.
+(* an error item in the middle of tool 1's stream: the merged stream ends with it after tool 1's
+   chunk; what was delivered are prefixes *)
+Example error_item_nonvacuous :
+  let srcs := [(["a"; "b"], None); (["c"], Some 101%N); (["d"], None)] in
+  merge_run [0; 1; 2; 1; 0]%nat srcs = ([(0, "a"); (1, "c"); (2, "d")]%nat, Some 101%N)
+  /\ drained (merge_rest [0; 1; 2; 1; 0]%nat srcs) = false.
+Proof. vm_compute. split; reflexivity. Qed.
+(* call options: the call's own list knows "tz" only; options reach the tool *)
+Example call_options_nonvacuous :
+  let cfg := mkTS ex_kind (fun (o : string) n a => TOk (o ++ n ++ ":" ++ a)) (fun (o : string) n a => SOk [o; n; a] None) in
+  let ts := mkTS (fun n => if String.eqb n "tz" then Some KInv else None)
+                 (fun (o : string) n a => TOk (o ++ "!" ++ n)) (fun (o : string) n a => SErr 9) in
+  tools_invoke_with cfg None (mkCO None "<o>") [0]%nat true [mkCall "c0" "ta" "x"] = Ok [("<o>ta:x", "c0")]
+  /\ tools_invoke_with cfg None (mkCO (Some ts) "<o>") [0]%nat true [mkCall "c0" "tz" "x"] = Ok [("<o>!tz", "c0")]
+  /\ tools_invoke_with cfg None (mkCO (Some ts) "<o>") [0]%nat true [mkCall "c0" "ta" "x"] = Err E_UNKNOWN.
+Proof. vm_compute. repeat split; reflexivity. Qed.
+
+(* convTools: a configuration with a tool that implements neither interface / whose Info fails *)
+Example conv_nonvacuous :
+  let impl := mkTI (fun (o : string) a => TOk (o ++ a)) (fun (o : string) a => SOk [o; a] None) in
+  let good := [mkTD true "ta" (Some KInv) impl; mkTD true "tb" (Some KStr) impl] in
+  let bad := [mkTD true "ta" (Some KInv) impl; mkTD true "tb" None impl] in
+  node_invoke None good None "<o>" [1; 0]%nat true [mkCall "c0" "tb" "x"; mkCall "c1" "ta" "y"]
+    = Ok [("<o>x", "c0"); ("<o>y", "c1")]
+  /\ node_invoke None bad None "<o>" [0]%nat true [mkCall "c0" "ta" "x"] = Err E_NOTRUNNABLE
+  /\ node_invoke None good (Some bad) "<o>" [0]%nat true [mkCall "c0" "ta" "x"] = Err E_NOTRUNNABLE
+  /\ node_invoke None good (Some [mkTD false "ta" (Some KInv) impl]) "<o>" [0]%nat false [] = Err E_TOOLINFO.
+Proof. vm_compute. repeat split; reflexivity. Qed.
